@@ -133,10 +133,10 @@ def st_outcome(pa):
         if e[3] is not None and tuple(e[3]) == ("st", "validator", "transactions"):
             m = C.short(e[1])
             marker = (marker or []) + [m.split("::")[-1]]
-        elif e[3] and e[3][0] == "st" and len(e[3]) >= 2 and not READ_ONLY_CALLEES.search(e[1]) \
-                and not re.search(r"TransportIntegrity::|ShortTermCredentialClient::", e[1]):
-            # a call that may mutate mechanism state through a reference (Option::insert / replace / take ...)
-            other_writes.append(("write-via-call", "st", tuple(e[3][1:]), C.short(e[1])))
+        for rc in (e[5] if len(e) > 5 else ()):
+            if rc[0] == "st" and len(rc) >= 2 and tuple(rc[:2]) != ("st", "validator"):
+                # a callee that receives `&mut` into mechanism state may mutate it (Option::insert / replace / take ...)
+                other_writes.append(("write-via-call", "st", tuple(rc[1:]), C.short(e[1])))
     verified = None
     for e in pa.calls:
         if re.search(r"validate_message_integrity$", e[1]):
@@ -473,12 +473,8 @@ def _ret_str(r):
     return repr(r)[:80]
 
 
-# std / workspace callees that only read through a reference into mechanism state (reviewed); any other call whose
-# receiver lies in the mechanism's state may mutate it (Option::insert / replace / take, mem::replace, ...)
-READ_ONLY_CALLEES = re.compile(
-    r"PartialEq(<.*>)?>::(eq|ne)$|::clone$|Option::<.*>::(is_some|is_none|as_ref|as_deref|is_some_and|iter|copied|cloned|unwrap_or\w*|map\w*|ok_or\w*|and_then|expect|unwrap)$"
-    r"|Deref>::deref$|AsRef<.*>>::as_ref$|Borrow<.*>>::borrow$|fmt::(Debug|Display)>::fmt$|::as_str$|::len$|::is_empty$|::contains(_key)?(::<.*>)?$"
-    r"|::get(::<.*>)?$|PartialOrd(<.*>)?>::(lt|le|gt|ge|partial_cmp)$|Ord>::cmp$|::to_owned$|::to_string$|::as_slice$|::as_bytes$|::iter$")
+# a callee that receives `&mut` into the mechanism's state may mutate it (Option::insert / replace / take, mem::replace ...):
+# E2 logs those references with every call (6th field of the call entry)
 
 
 def _lt_writes(pa):
@@ -490,14 +486,14 @@ def _lt_writes(pa):
                 tgt = "params.*." + tgt
             out.append((tgt, w[3]))
     for e in pa.calls:
-        rc = e[3]
-        if not rc or rc[0] != "lt" or len(rc) < 2:
-            continue            # receiver `lt` itself: a method of the mechanism, explored on its own (compositional)
-        if tuple(rc[:3]) == ("lt", "validator", "transactions") and re.search(r"HashSet::<.*>::(insert|remove)", e[1]):
-            continue            # the violated-transaction marker, judged separately
-        if READ_ONLY_CALLEES.search(e[1]):
-            continue
-        out.append(("%s via %s" % (".".join(str(x) for x in rc[1:]), C.short(e[1])), "call"))
+        for rc in (e[5] if len(e) > 5 else ()):
+            if rc[0] != "lt" or len(rc) < 2:
+                continue        # `&mut lt` itself: a method of the mechanism, explored on its own (compositional)
+            if tuple(rc[:3]) == ("lt", "validator", "transactions") and re.search(r"HashSet::<.*>::(insert|remove)", e[1]):
+                continue        # the violated-transaction marker, judged separately
+            if tuple(rc[:2]) == ("lt", "validator") and len(rc) == 2:
+                continue        # TransportIntegrity's own methods: they only touch the marker set (R7.1 / R8.x explore them)
+            out.append(("%s via %s" % (".".join(str(x) for x in rc[1:]), C.short(e[1])), "call"))
     return out
 
 
